@@ -229,4 +229,16 @@ PROPS = {
         assumptions=["the lock holder is eventually scheduled (tokio fairness)", "a router blocked on a non-reading subscriber stops draining its own channel by design (back-pressure)"],
         explanation="",
     ),
+    "C15": dict(
+        module="SeliumModel.Props.C15",
+        suites=["e2etls"],
+        level="other",
+        rule="all 8 pairings of client identity {certified by the configured CA, by another CA, self-signed, none} x server identity {configured CA, another CA}, keys generated afresh each run (two runs of the bundled generator + rcgen), over real QUIC: connect and register a publisher; exhaustive over the property's stated quantifier",
+        trusted_base=COMMON_TRUST + [
+            "rustls / webpki / ring / quinn: X.509 path validation, signatures, the TLS 1.3 handshake, ALPN",
+            "translator: recognises the client-certificate verifier the server installs, the client's root-store use, the server-name literal",
+        ],
+        assumptions=["chain validation is abstracted to 'signed by CA n'; the theorem is about the policy the configuration requests, the mechanism is exercised end to end"],
+        explanation="policy theorem c15_policy over an abstract chain-validation relation instantiated with configuration facts regenerated from the source (server client-cert verifier = required+verified, client verifies server against configured roots for name localhost), plus an exhaustive end-to-end run of the 8 identity pairings; X.509 and the handshake are trusted, not proved",
+    ),
 }
